@@ -324,6 +324,29 @@ class Inliner:
         self.count = 0
         self.log: List[Tuple[str, str]] = []
         self._tmp = 0
+        self._intro: Dict[str, Set[str]] = {}
+        self._cur_targets: Set[str] = set()
+
+    def _fresh_locals(self, fi, fn: ast.AST, body: List[ast.stmt], extra: List[ast.AST]) -> None:
+        """Rename (in place) the callee's own locals that clash with a local brought in by an EARLIER absorbed call in the same
+        host STATEMENT: two calls of one helper (area(a) + area(b)) must not share their temporaries.  A local that has the name of
+        the variable the host statement assigns is left alone (x = helper() whose result variable is also called x)."""
+        # (A clash with one of the host's ORIGINAL names is left as it is: after an extract-method refactoring the helper's
+        # locals are the host's former locals, and the rules know them by those names.)
+        taken = self._intro.setdefault(fi.qualname, set()) - self._cur_targets
+        comp_scoped = {n.id for c in ast.walk(fn) if isinstance(c, ast.comprehension) for n in ast.walk(c.target) if isinstance(n, ast.Name)}
+        own = _assigned_names(fn) - comp_scoped
+        ren: Dict[str, str] = {}
+        for nm in sorted(own):
+            if nm in taken:
+                self._tmp += 1
+                ren[nm] = f"{nm}__{self._tmp}"
+        if ren:
+            for root in list(body) + [e for e in extra if e is not None]:
+                for n in ast.walk(root):
+                    if isinstance(n, ast.Name) and n.id in ren:
+                        n.id = ren[n.id]
+        self._intro[fi.qualname] |= {ren.get(nm, nm) for nm in own}
 
     # ------------------------------------------------------------ resolution
     def _callee(self, fi, call: ast.Call, multi: bool = False):
@@ -407,6 +430,7 @@ class Inliner:
         if body and isinstance(body[-1], ast.Return):
             ret_expr = body[-1].value
             body = body[:-1]
+        self._fresh_locals(fi, fn, body + [t_ for p_ in pre for t_ in p_.targets], [ret_expr])
         sub = _Subst(mapping)
         body = [sub.visit(s) for s in body]
         if ret_expr is not None:
@@ -456,6 +480,7 @@ class Inliner:
         if not _always_returns(body):
             body = body + [ast.Return(value=None)]
             body = tailify(body) or body
+        self._fresh_locals(fi, fn, body + [t_ for p_ in pre for t_ in p_.targets], [])
         sub = _Subst(mapping)
         body = [sub.visit(s) for s in body]
 
@@ -515,6 +540,9 @@ class Inliner:
                 self.count += 1
                 out.extend([init, loop])
                 continue
+            self._intro[fi.qualname] = set()   # temporaries may be reused from one host statement to the next, not within one
+            self._cur_targets = {n.id for t_ in (st.targets if isinstance(st, ast.Assign) else [getattr(st, "target", None)]) if t_ is not None
+                                 for n in ast.walk(t_) if isinstance(n, ast.Name)}
             # statement-level call of a helper with several returns
             multi = None
             if isinstance(st, (ast.Assign, ast.AnnAssign, ast.Return, ast.Expr)) and isinstance(getattr(st, "value", None), ast.Call):
